@@ -134,10 +134,13 @@ def check_rewrite(ops, macros, pm, mapping, desc):
     return []
 
 
+NSRC = 5
+
+
 def mappings_all():
-    src = [0, 1, 2, 3, 4]
-    dst = [0, 1, 2, 3, 4, 5]
-    for k in range(0, 6):
+    src = list(range(NSRC))
+    dst = list(range(NSRC + 1))
+    for k in range(0, NSRC + 1):
         for dom in itertools.combinations(src, k):
             for img in itertools.permutations(dst, k):
                 yield dict(zip(dom, img))
@@ -222,8 +225,10 @@ def run_case(cid, case):
 
 
 def run(tier, seed):
+    global NSRC
     t0 = time.time()
     impl.warm()
+    NSRC = 5 if tier == "quick" else 6
     nreal = len(real_maps())
 
     def make_cases():
@@ -241,7 +246,7 @@ def run(tier, seed):
              " for one entry), 0-1 position marks of each kind, plus maps produced by the compiler and both decompilers: fields "
              "compared one by one, ==, idempotent re-serialisation; rewriting: every map spec of a reduced family x ALL 4051 "
              "injective partial mappings 0..4 -> 0..5 (dropping, non-monotone) against a ten-line reference; an evaluation is one "
-             "map (round trip) or one map x 4051 mappings (rewrite, counted in counters.rewrite_calls); non-trivial = non-empty map",
+             "map (round trip) or one map x all mappings (rewrite, counted in counters.rewrite_calls); non-trivial = non-empty map",
         assumptions=["tuples and lists are identified after the JSON round trip",
                      "when no later op survives, the rewritten return address is unspecified and not compared"],
-        bounds={"offsets": "0..4 -> 0..5", "mappings": 4051})
+        bounds={"offsets": f"0..{NSRC - 1} -> 0..{NSRC}", "mappings": 4051 if tier == "quick" else 37633})
